@@ -275,6 +275,7 @@ def run(ctx):
         if died:
             ctx.fail("e2e:thread-died-with-raising-handlers", f"{died} (script {sc})", case)
     # (3) documented reactions of intervention events
+    substore_reaction(ctx)
     obs = reaction_cases(ctx)
     exp = ctx.lean([["reaction", o[0]] for o in obs])
     for (name, observed, errs, exc_name, where), e in zip(obs, exp):
@@ -284,6 +285,36 @@ def run(ctx):
             ctx.fail(f"intervention-reaction:{name}", f"{name} handler raising {exc_name} ({where}): observed {observed}, documented {e}", case)
         if errs:
             ctx.fail(f"intervention-exception-escapes:{name}", f"thread died: {errs} ({exc_name}, {where})", case)
+
+
+def substore_reaction(ctx):
+    """the requestor-side Storage SCP (C-GET / C-MOVE sub-operations): a raising EVT_C_STORE handler gives the documented
+    failure response 0xC211 - the same message, on the same presentation context, as a handler returning that status"""
+    from pynetdicom import evt
+
+    from harness import ctxlib as L
+
+    for cid in (1, 3, 7, 255):
+        got = {}
+        for mode in ("returns", "raises"):
+            assoc, rec = L.make_assoc()
+            assoc._accepted_cx = {cid: L.make_cx(cid, L.CT, L.IMPLICIT_LE, False, True)}
+
+            def h(event, mode=mode):
+                if mode == "raises":
+                    raise KeyError("scripted")
+                return 0xC211
+
+            assoc.bind(evt.EVT_C_STORE, h)
+            req = L.make_request("cStore", L.CT)
+            req._context_id = cid
+            assoc._c_store_scp(req)
+            got[mode] = [(x[0], x[2]) for x in rec.sent]
+        case = ["substore-reaction", cid]
+        ctx.case(case, kind="reaction:sub-operation")
+        if got["raises"] != got["returns"] or got["raises"] != [(cid, 0xC211)]:
+            ctx.fail("intervention-reaction:EVT_C_STORE:sub-operation",
+                     f"C-STORE sub-operation on context {cid}: raising handler answered {got['raises']}, a handler returning 0xC211 {got['returns']} (context id, status)", case)
 
 
 def replay(ctx, case):
